@@ -1,5 +1,6 @@
 """C04 — opening, verifying and parsing functions are total on untrusted bytes (open/parse/convert layer)."""
 import re
+import os
 
 from ..core import operand_locals, def_sites
 from ..expr import (expr_of_operand, expr_of_local, call_arg_exprs, evaluate, deep_repr, result_kind_of_ret,
@@ -793,6 +794,9 @@ class Discharger:
                 continue
             if isinstance(v, tuple) and v[0] == "field" and caller_supplied_field(f, str(v[1])):
                 continue
+            if isinstance(v, tuple) and v[0] == "local" and isinstance(v[1], str) and v[1].count(".") == 1 and \
+                    any(lctx.name(p_) == v[1].split(".")[0] for p_ in range(1, f.argc + 1)):
+                continue        # integer field of a record parameter (configuration the caller supplies)
             if isinstance(v, tuple) and v[0] == "local":
                 ps = [p_ for p_ in range(1, f.argc + 1) if f.local_name(p_) == v[1]]
                 if ps:
@@ -932,6 +936,13 @@ def check(ctx, rep, prog, tag):
             def hof(call, t):
                 if t.vis == "pub" or t.kind == "closure" or in_boundary(t):
                     return False
+                # small private helpers that only hand back views of their arguments (a slice, a tuple
+                # or private struct of slices: `split_sealed(c) -> (&[u8], &[u8])`, `Framed::split(c)`)
+                rt = t.locals[0]["t"]
+                if ("&" in rt or "<'" in rt) and "Result<" not in rt and "Option<" not in rt and t.n <= 16:
+                    return True
+                if os.environ.get("C04_FOLD") and t.n <= int(os.environ.get("C04_FOLD")):
+                    return True
                 for a in call.args:
                     if a.get("k") == "const" and "fn_key" in a:
                         return True
@@ -946,7 +957,7 @@ def check(ctx, rep, prog, tag):
     # closure bodies that were folded into their parent's view are analysed there, in context
     folded = {p_ for v_ in fns for p_ in getattr(v_, "inlined", [])}
     fns = [g for g in fns if not (g.kind == "closure" and g.path in folded)]
-    import os
+    pass
     debug = os.environ.get("C04_DEBUG")
     # boundary functions called directly from in-scope code: their division/remainder sites (divisor built
     # from parameters) are lifted as preconditions -- a zero divisor is a panic no primitive contract excuses
